@@ -147,14 +147,19 @@ def coqchk(pid, log):
 
 # ----------------------------------------------------------------------------- Go side
 
-def build_driver(work, log):
-    """Builds the driver against /repo's current working tree (tag verif)."""
+def build_driver(work, log, race=False):
+    """Builds the driver against /repo's current working tree (tag verif); with the race
+    detector for the concurrency property."""
     with Lock(V + '/harness/.lock'):
         tmp = V + '/harness/go.sum.tmp%d' % os.getpid()
         shutil.copy(REPO + '/go.sum', tmp)
         os.replace(tmp, V + '/harness/go.sum')
-        rc, out, err = sh(['go', 'build', '-tags', 'verif', '-o', work + '/wtdriver', './cmd/wtdriver'],
-                          env=GOENV, cwd=V + '/harness', timeout=1200)
+        cmd = ['go', 'build', '-tags', 'verif', '-o', work + '/wtdriver', './cmd/wtdriver']
+        env = GOENV
+        if race:
+            cmd = ['go', 'build', '-race', '-tags', 'verif', '-o', work + '/wtdriver', './cmd/wtdriver']
+            env = dict(GOENV, CGO_ENABLED='1')
+        rc, out, err = sh(cmd, env=env, cwd=V + '/harness', timeout=1200)
     if rc != 0:
         log['driver_build_output'] = (out + err)[-4000:]
     return rc == 0
@@ -181,7 +186,7 @@ def run_shard(args):
     cf = '%s/shard%d.case' % (work, idx)
     open(cf, 'w').write(text)
     t0 = time.time()
-    env = dict(os.environ, TZ='Asia/Tokyo', TMPDIR=work)
+    env = dict(os.environ, TZ='Asia/Tokyo', TMPDIR=work, GORACE='halt_on_error=1 exitcode=66')
     rc, out, err = sh([work + '/wtdriver', cf], timeout=timeout, env=env)
     t1 = time.time()
     if rc != 0 and 'harnessError' in err:
@@ -201,7 +206,7 @@ def run_shard(args):
             if 'harnessError' in e2:
                 return {'error': 'driver: %s' % e2[-2000:], 'impl': [], 'model': []}
             if rc2 != 0:
-                why = 'timeout' if rc2 == -9 else (re.findall(r'(?m)^(panic: .*|fatal error: .*)$', e2) or ['rc=%d' % rc2])[0]
+                why = 'timeout' if rc2 == -9 else ('DATA-RACE' if rc2 == 66 else (re.findall(r'(?m)^(panic: .*|fatal error: .*)$', e2) or ['rc=%d' % rc2])[0])
                 o2 = o2 + '< PROCESS-CRASHED %s\n' % why.replace(' ', '_')[:200]
             out += o2
     impl = split_stream(out)
